@@ -5,12 +5,15 @@
    hint instructions (inputs, output wires), same number of wires; and the model raises its
    compile-time panic flag exactly when the real builder panicked. *)
 From Coq Require Import ZArith List Bool Arith.
-From GnarkV Require Import Base.Zp CS.Solver Frontend.Spec Frontend.BuilderR1CS.
+From GnarkV Require Import Base.Zp CS.Solver Frontend.Spec Frontend.BuilderR1CS Frontend.BuilderR1CSBits.
 Import ListNotations.
 Local Open Scope Z_scope.
 
+(* the compiler with the bit-level calls (BuilderR1CSBits.v); on programs inside the core it is b_compile
+   (b_compile_ext_core), the function compile_sound / compile_complete are about *)
 Definition zb_compile (p : Z) :=
-  b_compile Z 0 (1 mod p) (addp p) (mulp p) (subp p) (oppp p) (invp p) Z.eq_dec (fun z => z mod p).
+  b_compile_ext Z 0 (1 mod p) (addp p) (mulp p) (subp p) (oppp p) (invp p) Z.eq_dec (fun z => z mod p)
+    (Z.to_nat (Z.log2 p + 1)) (p - 1) (fun z => z).
 
 (* (modulus, nbpub, nbsec, threshold, program, outs, compiled without panic, nb wires, dumped instructions) *)
 Definition bcase := (Z * nat * nat * nat * list op * list nat * bool * nat * list (instr Z))%type.
